@@ -16,7 +16,9 @@ def _out(v):
 
 
 def execute(case):
-    from ural.lru import trie as T, serialize_lru
+    from ural.lru import trie as T, serialize_lru, lru_stems, canonicalized_lru_stems, normalized_lru_stems, fingerprinted_lru_stems
+    stemf = {"LRUTrie": lru_stems, "CanonicalizedLRUTrie": canonicalized_lru_stems, "NormalizedLRUTrie": normalized_lru_stems,
+             "FingerprintedLRUTrie": fingerprinted_lru_stems}[case["cls"]]
     from ural import canonicalize_url, normalize_url, fingerprint_url
     cls = getattr(T, case["cls"])
     imgf = {"LRUTrie": lambda u: u, "CanonicalizedLRUTrie": canonicalize_url, "NormalizedLRUTrie": normalize_url,
@@ -25,7 +27,8 @@ def execute(case):
     urls = [dec(u) for u in case["urls"]]
     toks = []
     for u in urls:
-        k, e = guarded(t.tokenize, u)
+        # the expected key comes from the PUBLIC stems function of the variant (judged by C07), not from the trie's own tokenizer
+        k, e = guarded(stemf, u, suffix_aware=case["sa"])
         i, e2 = guarded(imgf, u)
         toks.append((list(k) if k is not None else None, i if e2 is None else None))
     events = [{"op": "new"}]
@@ -108,9 +111,9 @@ def run(ctx):
             cases.append({"cls": "LRUTrie", "sa": sa, "urls": big, "ops": [[(t[0] * 7 + i) % len(big), VALS[t[1] - 1], t[2]] for i, t in enumerate(h)]})
         hist = data["hist"]
     # variants: spelling classes of a few bases as the URL list (same-image-same-key)
-    lists = {"CanonicalizedLRUTrie": [c["x"] for c in c02.gen_cases(ctx, 1) if c["b"] in (2, 12, 22)],
-             "NormalizedLRUTrie": [c["x"] for c in c04.gen_cases(ctx, 1, bases="{2, 12}")],
-             "FingerprintedLRUTrie": [c["x"] for c in c04.gen_cases(ctx, 1, fp=True, bases="{2, 12}")]}
+    lists = {"CanonicalizedLRUTrie": [c["x"] for c in c02.gen_cases(ctx, 1) if c["b"] in (2, 11, 12, 22)],
+             "NormalizedLRUTrie": [c["x"] for c in c04.gen_cases(ctx, 1, bases="{2, 11, 12}")],
+             "FingerprintedLRUTrie": [c["x"] for c in c04.gen_cases(ctx, 1, fp=True, bases="{2, 11, 12}")]}
     for cls, urls in lists.items():
         urls = sorted(urls)
         step = max(1, len(urls) // 20)
@@ -128,7 +131,7 @@ def run(ctx):
                 "replayed on LRUTrie with set / set_lru(str) / set_lru(stems) rotating; TLC RandomSubset histories over a ~60-URL slice (every URL with all its trailing-slash / query / fragment variants, raw paths with empty inner segments); "
                 "for the three variant classes random histories over spelling classes (C02 / normalize / fingerprint machines) of 2-3 bases; after every step "
                 "match, match_lru (both forms) on every URL of the list, len, iter; non-trivial = a key stored twice or more than one entry")
-    ctx.assumptions = ["the key of a variant trie is what its public tokenizer returns (judged by C07); for LRUTrie it must equal the Lru.tla stems (MODEL-DRIFT)"]
+    ctx.assumptions = ["the expected key of a variant trie is what the variant's public *_lru_stems function returns for the URL and suffix mode (judged by C07); for LRUTrie it must equal the Lru.tla stems (MODEL-DRIFT)"]
     n = core.triage(ctx, failing, describe)
     if ctx.drift and not n:
         raise core.Machinery("%d events where Lru.tla's stems disagree with LRUTrie.tokenize: %s" % (ctx.drift, ctx.notes[:3]))
